@@ -569,7 +569,9 @@ def World.genAttached (w : World) (i : Nat) (e : Emitter) : Op → World × Stri
       (w.setE i ({ e with instOpts := 0, comment := false }.addNode (.jmp id e.instOpts)), "ok")
   | .elabel _ id sz =>
     if e.kind = .asm then w.viaAsm i e (asmElabel · · id sz)
-    else if !(sz == 0 || sz == 1 || sz == 2 || sz == 4 || sz == 8) then (w, "InvalidArgument")
+    -- BaseBuilder::embed_label: the same tests, in the same order, as the Assembler
+    else if id ≥ w.h.labels.length then (w, "InvalidLabel")
+    else if !(sz == 0 || sz == 1 || sz == 2 || sz == 4 || sz == 8) then (w, "InvalidOperandSize")
     else (w.setE i (e.addNode (.elabel id sz)), "ok")
   | .section _ name =>
     match w.h.newSection name with
